@@ -296,6 +296,35 @@ func runC12(c *core.Ctx) {
 			c.Distinct("droprebind", src, gen.DescribeEnv(bind))
 		}
 	}
+	// ---- assign evaluates its right-hand side every time it runs: per iteration, and per render of one parsed template ----------
+	if c.Shard == 13%c.NShards && c.Begin("assign re-evaluates") {
+		for _, cs := range []struct {
+			src  string
+			want func(n int) string
+		}{
+			{"{% for i in (1..3) %}{% assign v = 10 | plus: i %}{{ v }},{% endfor %}", func(int) string { return "11,12,13," }},
+			{"{% for i in (1..3) %}{% assign v = \"x\" | append: i | append: n %}{{ v }};{% endfor %}", func(n int) string { return fmt.Sprintf("x1%d;x2%d;x3%d;", n, n, n) }},
+			{"{% assign v = 1 | plus: n %}{{ v }}|{% assign w = 'n=' | append: n %}{{ w }}|{% assign t = true and n %}{{ t }}", func(n int) string { return fmt.Sprintf("%d|n=%d|true", n+1, n) }},
+			{"{% for i in (1..2) %}{% assign v = nil | default: i %}{{ v }}{% assign u = -1 | times: i %}{{ u }} {% endfor %}{% assign z = 2.5 | plus: n %}{{ z }}", func(n int) string { return fmt.Sprintf("1-1 2-2 %v", float64(n)+2.5) }},
+			{"{% capture c %}{{ n }}{% endcapture %}{% assign v = 'c' | append: c %}{{ v }}{% assign k = 0 | plus: arr[0] %}{{ k }}", func(n int) string { return fmt.Sprintf("c%d%d", n, n*2) }},
+		} {
+			tpl, pr := core.ParsePlain(e, cs.src)
+			if !pr.OK() {
+				c.Violate("assign-reevaluates|parse", "template does not parse", map[string]any{"source": cs.src, "observed": pr.Brief()})
+				continue
+			}
+			for n := 1; n <= 3; n++ {
+				res := core.Render(tpl, map[string]any{"n": n, "arr": []any{n * 2}})
+				c.Eval(1)
+				c.Obs("assign_reevaluation_cases", 1)
+				c.Distinct("assignre", cs.src, fmt.Sprint(n))
+				if want := cs.want(n); !res.OK() || res.Out != want {
+					c.Violate("assign-reevaluates|"+resClass(res), "assign binds the value its right-hand side has when the tag runs: in every loop iteration and in every render of the same parsed template",
+						map[string]any{"source": cs.src, "n": n, "render_number_of_this_template": n, "expected": want, "observed": res.Brief()})
+				}
+			}
+		}
+	}
 	// ---- a loop item kept with assign is that item for good, whatever the collection is made of ---------------------------
 	if c.Shard == 8%c.NShards && c.Begin("kept loop items") {
 		src := "{% for p in coll %}{% if forloop.first %}{% assign kept = p %}{% endif %}{% assign prev = cur %}{% assign cur = p %}{% if prev %}{{ prev[0] }}<{{ cur[0] }};{% endif %}{% endfor %}|{{ kept[0] }}={{ kept[1] }}|{{ cur[0] }}={{ cur[1] }}"
